@@ -74,6 +74,7 @@ type Setup struct {
 	Action        *HSpec
 	AutoHead      bool
 	Befores       int
+	BeforeStop    bool // one Flame.Before handler ends requests that carry X-Stop (returns true)
 	Static        *StaticSpec
 	Svc           bool
 	FinalEcho     bool
@@ -126,6 +127,7 @@ var SimplePatterns = []Pat{
 	{"/c3/{x}/{y}", []string{"/c3/a/b"}, nil},
 	{"/c4", []string{"/c4"}, nil},
 	{"/c5/{z: /[0-9]+/}", []string{"/c5/42"}, nil},
+	{"/c6/?opt", []string{"/c6", "/c6/opt"}, nil}, // two leaves, one handler slice
 }
 
 // Hostile are request paths aimed at nothing in particular.
@@ -284,6 +286,7 @@ func GenSetup(g *tape.Stream, p *Profile) *Setup {
 	s.AutoHead = g.Chance(p.AutoHeadPm)
 	if g.Chance(p.BeforesPm) {
 		s.Befores = 1 + g.Intn(2)
+		s.BeforeStop = g.Intn(2) == 1
 	}
 	if g.Chance(p.NotFoundPm) {
 		n := 1 + g.Intn(2)
